@@ -1,3 +1,25 @@
-(* C14 - placeholder (DESIGN.md 7 C14). *)
-From DL Require Import Base Context.
-Example C14_placeholder : True. Proof. exact I. Qed.
+(* C14 - functions, dataclasses, NamedTuples and pydantic models give the same verdict.
+   For an ordered field list and values that are arrays or None-for-optional:
+   - the dataclass / NamedTuple constructor and the function wrapper queue exactly the same tensors
+     ([add_fields] = [add_args]; the only difference is that the wrapper refuses parameters called self / cls);
+     both then run one [assert_context] on a fresh context;
+   - pydantic validates field by field on a context that lives in the validation data; each field validation is
+     one [assert_one] (the standalone check in front of it is the first thing assert_one does anyway), so the
+     whole validation equals one [assert_context] over the same queue, in field-declaration order whatever
+     the keyword order (values are looked up by field name).
+   Hence verdict and report coincide (they are the same [dres]). *)
+From DL Require Import Base Lexer Parser Eval Shape Dtypes Check Context Hints Call Entry Structural.
+
+Theorem C14_class_forms_queue_like_functions : forall ps vals q,
+  Forall (fun p => ((fst p =? "self") || (fst p =? "cls"))%string = false) ps ->
+  Forall (fun p => snd (snd p) <> []) ps ->
+  add_fields ps vals q = add_args ps vals q.
+Proof. exact add_fields_is_add_args. Qed.
+Theorem C14_pydantic_is_one_context : forall fields vals c q, field_queue fields vals = Some q ->
+  run_pydantic_from c fields vals = assert_context c q.
+Proof. exact run_pydantic_is_one_context. Qed.
+Theorem C14_field_validation_is_assert_one : forall c n a x,
+  validate_field c n a x = assert_one c {| c_idx := 0; c_name := n; c_tensor := x; c_annot := a |}.
+Proof. exact validate_field_is_assert_one. Qed.
+Redirect "C14.assumptions.1" Print Assumptions C14_pydantic_is_one_context.
+Redirect "C14.assumptions.2" Print Assumptions C14_class_forms_queue_like_functions.
